@@ -2,6 +2,7 @@
 from ..facts import Program, AnalysisBroken, WITNESS_FIELDS
 from .. import q
 from ..interval import Evaluator, IV
+from .. import memo
 
 CLAIM = {
     'text': 'Interval and layout-agreement rules on the time codec: every arithmetic node of time_to_epoch is evaluated over intervals for the '
@@ -22,7 +23,10 @@ EXPLANATION = (
     "0..23 h, 0..59 min, 0..60 s, utcdiff 0; mon_days[i] = cumulative days before month i; R09.2 layouts: _with_ms(21) _sec_only(17) ↔ "
     "date_time_parse, _time_with_ms(12) _time_only(8) ↔ time_parse, _date_only(8) _short_date_only(6) ↔ date_parse: same "
     "(offset,width,field) list, separators at skipped offsets, equal total length, inverse field offsets; R09.3 format0 writes exactly "
-    "`width` digits, parse_decimal consumes exactly `len`. R09.5 the scratch array of every date/time stream printer is a zero-initialised automatic local. NOT decided: log renderer rounding; state carried between calls by a cache (a cache is not wrong in itself, and its invalidation condition is a statement about values).")
+    "`width` digits, parse_decimal consumes exactly `len`. R09.5 the scratch array of every date/time stream printer is a zero-initialised automatic local. R09.6 the codec functions and the Tickval accessors they use carry no state between calls in static/thread_local locals, or the state is a one-entry cache whose first call refreshes and whose skipped refresh implies the key of the current input (equality idiom, floor idiom with a range test; other cache shapes: exit 2). NOT decided: log renderer rounding; that a cached value depends on the instant only through its key.")
+
+
+_TOD = {}
 
 
 def _layout(fn, env, ptr_decl, is_writer):
@@ -39,7 +43,21 @@ def _layout(fn, env, ptr_decl, is_writer):
                 return 'ms'
             if x.k == 'DeclRefExpr' and x.decl.get('n') == 'millisecond':
                 return 'ms'
-        return '?'
+        # a time-of-day component computed from one local second-of-day count: decided by evaluating the expression tree for every value 0..86399
+        # (that the local stays inside one day is R09.6's range obligation on the cache it is derived from)
+        leaves = {x.declid for x in n.walk() if x.k == 'DeclRefExpr' and x.decl.get('sc') == 'local' and x.value is None}
+        if len(leaves) == 1:
+            key = (fn.q, n.i)
+            if key not in _TOD:
+                d = next(iter(leaves))
+                vals = [q.eval_int(n, {d: v}) for v in range(86400)]
+                _TOD[key] = '?'
+                for nm, f in (('tm_hour', lambda v: v // 3600), ('tm_min', lambda v: v // 60 % 60), ('tm_sec', lambda v: v % 60)):
+                    if all(vals[v] == f(v) for v in range(86400)):
+                        _TOD[key] = nm
+            if _TOD[key] != '?':
+                return _TOD[key]
+        raise AnalysisBroken('rendered / parsed value `%s` is not recognised as a calendar field at %s' % (n.text(), n.loc))
 
     def visit(n, e):
         if n.is_call and n.callee_qp == 'FIX8::format0' and is_writer:
@@ -73,6 +91,8 @@ def _layout(fn, env, ptr_decl, is_writer):
             return False
         if a.strip(casts=True).k == 'DeclRefExpr' and a.strip(casts=True).decl.get('sc') == 'param' and a.type and a.type['k'] == 'bool':
             return False      # optional mode flags (timeonly): the layout does not depend on them
+        if any(x.k == 'DeclRefExpr' and x.decl is not None and x.decl.get('sc') == 'static_local' for x in a.walk()):
+            return True       # the refresh condition of a cache (R09.6 decides it): the layout is the same on both branches or the refresh writes are seen here
         return None
     kind, val, e = q.follow(fn, oracle, env=env, visit=visit)
     return sorted(fields), seps, pos[0]
@@ -289,5 +309,12 @@ def run(ctx):
                   'characters (a 6-character MonthYear printed after an 8-character one carries its last two characters)'
                   % (bad[0]['n'] if bad else '', 'static / thread_local' if bad and bad[0].get('sc') != 'local' else 'not initialised'))
     ctx.need(n_sp >= 4, 'fewer than 4 date/time stream printers found (%d)' % n_sp)
+    # ---------------- R09.6 state carried from one rendering / parse to the next (a cached broken-out date): decided for the one-entry cache idioms of memo.py
+    closure = []
+    for qn in ('FIX8::date_time_format', 'FIX8::format0', 'FIX8::time_to_epoch', 'FIX8::date_time_parse', 'FIX8::time_parse', 'FIX8::date_parse', 'FIX8::parse_decimal',
+               'FIX8::Tickval::as_tm', 'FIX8::Tickval::get_tm', 'FIX8::Tickval::secs', 'FIX8::Tickval::msecs', 'FIX8::Tickval::nsecs'):
+        closure.append(prog.fn1(qn))
+    memo.memo_rule(ctx, closure, 'R09.6', 'date/time codec')
     ctx.floor('R09.2', 14)
     ctx.floor('R09.4', 2)
+    ctx.floor('R09.6', 12)
